@@ -15,13 +15,16 @@ use std::io;
 use vh::util::*;
 use vh::val::Val;
 
+/// collects what it is given; `1` > 0: takes at most that many bytes per write call (a short count, as a
+/// pipe, a socket or a bounded buffer returns it)
 #[derive(Debug)]
-struct VecWriter(Vec<u8>);
+struct VecWriter(Vec<u8>, usize);
 
 impl io::Write for VecWriter {
     fn write(&mut self, buf: &[u8]) -> io::Result<usize> {
-        self.0.extend_from_slice(buf);
-        Ok(buf.len())
+        let n = if self.1 > 0 { buf.len().min(self.1) } else { buf.len() };
+        self.0.extend_from_slice(&buf[..n]);
+        Ok(n)
     }
     fn flush(&mut self) -> io::Result<()> {
         Ok(())
@@ -108,8 +111,18 @@ fn work(case: Val) -> Val {
     let mut order = vec![];
     log_mdc::iter(|k, _| order.push(Val::S(k.as_bytes().to_vec())));
     let tid = thread_id::get();
-    let mut w = VecWriter(Vec::new());
-    let enc = JsonEncoder::new();
+    // What a case does not say and must not matter (changes with every case of the process): the encoder is
+    // JsonEncoder::new() or the one a configuration document's `kind: json` yields (JsonEncoderDeserializer);
+    // the sink takes everything it is offered, or at most 1 / 5 / 64 bytes per write call.
+    static TURN: std::sync::atomic::AtomicUsize = std::sync::atomic::AtomicUsize::new(0);
+    let turn = TURN.fetch_add(1, std::sync::atomic::Ordering::SeqCst);
+    let mut w = VecWriter(Vec::new(), [0, 1, 0, 5, 0, 64, 1, 0, 5, 0, 64, 0][turn % 12]);
+    let enc: Box<dyn Encode> = if turn % 2 == 1 {
+        let cfg = serde_json::from_value(serde_json::json!({})).expect("empty encoder configuration");
+        log4rs::config::Deserializers::default().deserialize("json", cfg).expect("kind json")
+    } else {
+        Box::new(JsonEncoder::new())
+    };
     if let Some(hist) = c.get(8) {
         for (i, n) in hist.l().iter().enumerate() {
             let mut fw = FailWriter { budget: n.u() };
